@@ -390,6 +390,8 @@ func Compare(got, want Resp) string {
 		return ""
 	}
 	switch want.Code {
+	case "ANY":
+		return "" // the statements leave the answer open; what the request does to the state is still compared
 	case "ERR":
 		if got.Code == "OK" {
 			return fmt.Sprintf("status: got OK, want an error (%s)", want.Msg)
